@@ -74,6 +74,8 @@ def check_case(case):
     from pddl_plus_parser.exporters import TrajectoryExporter
     from pddl_plus_parser.lisp_parsers import TrajectoryParser
     res = Res()
+    if case.get("kind") == "file":
+        return check_file(case, res)
     world = PC.validate_plan_case(case)
     dom, objects, plan = case["dom"], case["objects"], case["plan"]
     if not plan:
@@ -123,6 +125,68 @@ def check_case(case):
     return res
 
 
+SHIPPED = [("tests/lisp_parsers_tests/depot_numeric.pddl", "tests/lisp_parsers_tests/pfile2.pddl", "tests/lisp_parsers_tests/test_numeric_trajectory"),
+           ("tests/lisp_parsers_tests/farmland.pddl", "tests/lisp_parsers_tests/pfile10_10.pddl", "tests/lisp_parsers_tests/pfile10_10.trajectory"),
+           ("tests/exporters_tests/depot_numeric.pddl", "tests/exporters_tests/pfile2.pddl", "tests/exporters_tests/test_numeric_trajectory"),
+           ("tests/models_tests/domain_miconic.pddl", "tests/models_tests/miconic_pfile_1-0.pddl", "tests/models_tests/miconic_pfile_1-0.trajectory")]
+
+
+def check_file(case, res):
+    """A shipped trajectory file: the parsed Observation versus an independent reading of the same text."""
+    import os
+    from pathlib import Path
+    from pddl_plus_parser.lisp_parsers import DomainParser, ProblemParser, TrajectoryParser
+    from pv.harness import read_state_tree, BadState
+    repo = os.environ.get("PV_REPO", "/repo")
+    dpath, ppath, tpath = (os.path.join(repo, x) for x in (case["domain_file"], case["problem_file"], case["trajectory_file"]))
+    res.classes = ["shipped-trajectory"]
+    res.key = case["trajectory_file"]
+    try:
+        tree = sexpr.read(open(tpath).read())
+        states = [read_state_tree(tree[0])] + [read_state_tree(x) for x in tree[2::2]]
+        ops = [x[1] for x in tree[1::2]]
+        if any(x[0] != "operator:" for x in tree[1::2]):
+            raise BadState("joint trajectory")
+    except (sexpr.Reject, BadState, OSError, IndexError) as e:
+        res.skipped = f"independent-reader:{type(e).__name__}"
+        return res
+    for with_problem in (True, False):
+        def run():
+            domain = DomainParser(Path(dpath)).parse_domain()
+            problem = ProblemParser(Path(ppath), domain).parse_problem() if with_problem else None
+            return TrajectoryParser(domain, problem).parse_trajectory(Path(tpath))
+        ok, obs = lib_call(run)
+        if not ok:
+            res.skipped = f"library-raised:{obs.key}"
+            return res
+        tag = "file-with-problem" if with_problem else "file-deduced-objects"
+        comps = obs.components
+        if len(comps) != len(ops):
+            res.bad(f"C10/{tag}/length", {**case, "components": len(comps), "steps": len(ops)})
+            return res
+        for i, c in enumerate(comps):
+            got = [c.grounded_action_call.name] + list(c.grounded_action_call.parameters)
+            if got != ops[i]:
+                res.bad(f"C10/{tag}/action-call", {**case, "step": i, "expected": ops[i], "got": got})
+                return res
+            pre, post = read_lib_state(c.previous_state), read_lib_state(c.next_state)
+            if not pddl.states_equal(states[i], pre) or not pddl.states_equal(states[i + 1], post):
+                res.bad(f"C10/{tag}/state", {**case, "step": i, "diff": pddl.state_diff(states[i], pre) or pddl.state_diff(states[i + 1], post)})
+                return res
+            if i > 0 and not (c.previous_state == comps[i - 1].next_state):
+                res.bad(f"C10/{tag}/chain", {**case, "step": i})
+                return res
+        res.evals += len(comps)
+    res.nontrivial = True
+    return res
+
+
+def chunk_cases(tier, chunk):
+    for i, (d, p, t) in enumerate(SHIPPED):
+        if i % chunk[1] == chunk[0]:
+            yield {"kind": "file", "domain_file": d, "problem_file": p, "trajectory_file": t}
+
+
 def gen(ch, tier):
     case = PC.gen_plan_case(ch, tier, max_len=6 if tier == "quick" else 15, p_applicable=0.85)
     case["allow"] = ch.flag(0.2)
@@ -131,5 +195,7 @@ def gen(ch, tier):
 
 def plan(tier):
     if tier == "quick":
-        return {"streams": {"main": 3000}, "shards": 16}
-    return {"streams": {"main": 40000}, "shards": 16}
+        return {"exhaustive": [(i, 4) for i in range(4)], "streams": {"main": 3000}, "shards": 16, "exhaustive_is_complete": True,
+                "exhaustive_note": "the single-agent trajectory files shipped under tests/ read by the library and by the independent reader"}
+    return {"exhaustive": [(i, 4) for i in range(4)], "streams": {"main": 40000}, "shards": 16, "exhaustive_is_complete": True,
+            "exhaustive_note": "the shipped single-agent trajectory files"}
